@@ -339,7 +339,7 @@ class Interp:
                 self._loops.pop()
         elif isinstance(st, ast.If):
             t = unparse(st.test)
-            if 'isinstance' in t or t.startswith('not ok'):
+            if 'isinstance' in t or (isinstance(st.test, ast.UnaryOp) and isinstance(st.test.op, ast.Not) and isinstance(st.test.operand, ast.Name) and st.body and isinstance(st.body[-1], ast.Raise)):
                 return
             self.run(st.body)
             self.run(st.orelse)
